@@ -1000,8 +1000,14 @@ def build_struct(target_host: str, banner: Optional['Banner'], kex: Optional['SS
         '''Returns a dictionary containing the messages in the "fail", "warn", and "info" levels for this algorithm.'''
         alg_db = SSH2_KexDB.get_db()
         alg_info = {}
-        if algorithm in alg_db[alg_type]:
-            alg_desc = alg_db[alg_type][algorithm]
+
+        # Normalize GSS key exchange names to the wildcard entries of the database, like output_algorithm() does (i.e.: 'gss-gex-sha1-vz8J1E9PzLr8b1K+0remTg==' => 'gss-gex-sha1-*').
+        alg_name = algorithm
+        if alg_type == 'kex' and algorithm.startswith('gss-'):
+            alg_name = "%s-*" % algorithm[0:algorithm.rindex('-')]
+
+        if alg_name in alg_db[alg_type]:
+            alg_desc = alg_db[alg_type][alg_name]
             alg_desc_len = len(alg_desc)
 
             # If a list for the failure notes exists, add it to the return value.  Similarly, add the related lists for the warnings and informational notes.
